@@ -9,6 +9,7 @@ import (
 	"io"
 	"reflect"
 	"strings"
+	"time"
 
 	protocol "github.com/hujm2023/go-sms-protocol"
 	"github.com/hujm2023/go-sms-protocol/cmpp"
@@ -603,6 +604,16 @@ func headerHelpers(r *core.Run, proto *spec.Proto, img []byte) {
 			// the constructor stamps the second word from the clock: mmddhhmmss as a decimal number
 			if ts := h.Sequence[1]; ts/100000000 < 1 || ts/100000000 > 12 || ts/1000000%100 < 1 || ts/1000000%100 > 31 || ts/10000%100 > 23 || ts/100%100 > 59 || ts%100 > 59 {
 				err = fmt.Errorf("sgip.NewHeader stamped %d, which is no mmddhhmmss", ts)
+			}
+			// the exported converter behind that stamp, at an instant derived from the image (any hour, any month, in
+			// any zone: the wall-clock fields of the instant as given are what goes on the wire)
+			{
+				zone := time.FixedZone("sim", int(int32(w(2)%97200))-43200)
+				at := time.Unix(1704067200+int64(w(3)%31622400), 0).In(zone) // somewhere in the leap year 2024
+				want := uint32(int(at.Month())*100000000 + at.Day()*1000000 + at.Hour()*10000 + at.Minute()*100 + at.Second())
+				if got := sgip.Timestamp(at); got != want && err == nil {
+					err = fmt.Errorf("sgip.Timestamp(%s) = %010d, mmddhhmmss of that instant is %010d", at.Format("2006-01-02 15:04:05 -0700"), got, want)
+				}
 			}
 			h.Sequence[1] = w(3)
 			pw.WriteUint32(h.TotalLength)
